@@ -11,6 +11,8 @@ Protocol (one op per line; the first line of a case is `cfg`):
   start | tick c | err | hb | timeouts | renew n|none r | apo | term | rst | adv us      (`rst` = Telomere.reset(); the word `reset` separates cases)
   tickd | tickk c | renewd | renewk n|none r | apor      the same methods through their other call forms: tick(), tick(cost=c),
                                                           renew(), renew(reset_errors=r, amount=n), trigger_apoptosis(reason="x")
+  tickb | ticki c | renewi n r                           arguments of an unusual but legal TYPE: tick(True), tick(IntSubclass(c)),
+                                                          renew(IntSubclass(n), r as the int 0/1)
   set thr n | set allow 0|1 | set life q|none | set idle q|none    a public configuration attribute is re-assigned on the live
                                                           lifecycle (search/correspondence only: outside the quantifier)
   many n <op>                                            the op (err, hb, tick c, tickd, timeouts, start, renew n r, renewd) n times
@@ -22,8 +24,10 @@ Protocol (one op per line; the first line of a case is `cfg`):
                                                           for the lock); ret is `retA/retB`, events and lock trace carry a/b.
                                                           Search axis (OS threads are outside the quantifier); judged against the
                                                           text and against both sequential orders run on the real code
-  cb 0|1|2                                               callbacks of the current lifecycle from now on: return / on_phase_change
-                                                          raises / on_senescence raises (each after recording the event);
+  cb 0|1|2|3                                             callbacks of the current lifecycle from now on: return / on_phase_change
+                                                          raises / on_senescence raises (each after recording the event) /
+                                                          3: on_senescence calls renew(None, True) on the lifecycle (auto-renewal:
+                                                          a callback that calls back; model stepRe);
                                                           a call ended by that exception shows ret `!`  (outside the property's
                                                           assumption "callbacks return": model stepCb + oracle clauses below)
 Observation after each op:
@@ -123,7 +127,13 @@ class Race:
 
 
 MANY_OK = ("err", "hb", "tick", "tickd", "timeouts", "start", "renew", "renewd")
-RACE_OK = ("start", "tick", "err", "hb", "timeouts", "renew", "apo", "term", "rst", "tickd", "tickk", "renewd", "renewk", "apor")
+RACE_OK = ("start", "tick", "err", "hb", "timeouts", "renew", "apo", "term", "rst", "tickd", "tickk", "renewd", "renewk", "apor",
+           "tickb", "ticki", "renewi")
+
+
+class _Int(int):
+    """an int subclass (what an IntEnum member, a numpy-free counter type, ... is): legal wherever an int is"""
+    __slots__ = ()
 
 
 class _Boom(Exception):
@@ -148,7 +158,7 @@ class C09(Prop):
         "tick:senescent", "tick:senescent-depleted", "err:threshold", "err:threshold-noop", "err:rate", "err:rate-noop",
         "err:ok", "hb", "timeouts:inactive", "timeouts:lifetime", "timeouts:idle", "timeouts:ok", "renew:disallowed",
         "renew:terminated", "renew:recover", "renew:extend", "apo:terminated", "apo:go", "term", "reset", "adv",
-        "new", "use:old", "use:fresh", "set", "cb", "cb:raised", "many", "race", "race:a-first", "race:b-first"]
+        "new", "use:old", "use:fresh", "set", "cb", "cb:raised", "cb:renewed", "many", "race", "race:a-first", "race:b-first"]
     assumptions = [
         "tick cost and renew amount are natural numbers (a negative cost/amount is outside the property's quantifier)",
         "on_phase_change / on_senescence callbacks return (callbacks that RAISE are explored too: model stepCb, theorem "
@@ -157,7 +167,9 @@ class C09(Prop):
         "threading.Lock / RLock semantics: a holder re-acquiring a Lock blocks forever, an RLock nests",
         "the clock is datetime.now() of the telomere module, replaced by a virtual microsecond clock",
         "console output (silent=False, a quarter of the cases) goes to a text stream that accepts it",
-        "sequential histories (one caller thread at a time); get_* accessors take no lock and are not part of the automaton",
+        "sequential histories (one caller thread at a time); two overlapping calls on one lifecycle are explored as a search "
+        "axis (`race`: interleaved at the lock) and covered by the lock-discipline facts; get_* accessors take no lock and are "
+        "not part of the automaton",
     ]
     trusted_modelled = ["modelled, not verified: the nine public mutators of Telomere as Operon.Telomere.step (incl. the length of "
                         "the event log), the accessors, callbacks that raise (stepCb), several lifecycles sharing the clock "
@@ -314,17 +326,18 @@ class C09(Prop):
                 if unit_bias and rng.random() < 0.8:
                     c = 1
                 form = rng.random()
-                lines.append(f"tick {c}" if form > 0.15 else "tickd" if c == 1 else f"tickk {c}")
+                lines.append(f"tick {c}" if form > 0.2 else ("tickb" if c == 1 else f"ticki {c}") if form > 0.15
+                             else "tickd" if c == 1 else f"tickk {c}")
             elif op == "renew":
                 amt = rng.choice(["none", "none", "0", "1", "2", "5", str(mm), str(mm + 3)])
                 r_ = rng.choice([0, 1])
                 form = rng.random()
-                lines.append(f"renew {amt} {r_}" if form > 0.15 else "renewd" if (amt, r_) == ("none", 1)
-                             else f"renewk {amt} {r_}")
+                lines.append(f"renew {amt} {r_}" if form > 0.2 else (f"renewi {amt} {r_}" if amt != "none" else f"renew {amt} {r_}")
+                             if form > 0.15 else "renewd" if (amt, r_) == ("none", 1) else f"renewk {amt} {r_}")
             elif op == "apo":
                 lines.append("apo" if rng.random() > 0.3 else "apor")
             elif op == "cb":
-                lines.append(f"cb {rng.choice([1, 1, 2, 0])}")
+                lines.append(f"cb {rng.choice([1, 1, 2, 0, 3, 3])}")
             elif op == "race":
                 def one():
                     k_ = rng.choice(["tick", "tick", "tick", "tickd", "err", "renew", "renew", "apo", "term", "term", "rst", "start",
@@ -376,7 +389,7 @@ class C09(Prop):
         return {"lines": lines, "note": f"random/{prof}"}
 
     def generate(self, rng, tier, n):
-        bad = ["tick", "tick -1", "tick x", "renew", "renew -3 1", "adv -5", "frobnicate", "renew 1", "tick 1 2", "use",
+        bad = ["cb 4", "tick", "tick -1", "tick x", "renew", "renew -3 1", "adv -5", "frobnicate", "renew 1", "tick 1 2", "use",
                "use x", "new 1", "use -1", "set", "set thr", "set foo 1", "set allow x", "tickk", "renewk 1", "cb", "cb 3", "cb x", "many 3 foo", "many 0 err", "many x err", "many 5000 err",
                "many 3 cfg 1 1 1 none none", "many 2 use 1"]
         for k in range(n):
@@ -477,6 +490,8 @@ class C09(Prop):
             evs.append(f"{tag}sen:{RS.get(r.value, '?')}")
             if mode["m"] == 2:
                 raise _Boom("on_senescence")
+            if mode["m"] == 3:
+                obj.renew(None, True)       # auto-renewal: the callback calls back into the lifecycle it is told about
         m, e, a = int(t[1]), int(t[2]), t[3] == "1"
         lh = None if t[4] == "none" else int(t[4]) / 4
         im = None if t[5] == "none" else int(t[5]) / 4
@@ -554,6 +569,13 @@ class C09(Prop):
             return lambda: get().terminate()
         if t == ["rst"]:
             return lambda: get().reset()
+        # arguments of an unusual but legal TYPE: a bool is an int (True == 1), an int subclass is an int
+        if t == ["tickb"]:
+            return lambda: get().tick(True)
+        if len(t) == 2 and t[0] == "ticki" and _num(t[1]) is not None:
+            return lambda: get().tick(_Int(int(t[1])))
+        if len(t) == 3 and t[0] == "renewi" and _num(t[1]) is not None and t[2] in ("0", "1"):
+            return lambda: get().renew(_Int(int(t[1])), int(t[2]))
         return None
 
     def _race(self, ent, j, fa, fb):
@@ -725,8 +747,10 @@ class C09(Prop):
                 fn = lambda: setattr(obj, "max_lifetime" if t[1] == "life" else "idle_timeout", val_)
             elif len(t) == 2 and t[0] == "adv" and _num(t[1]) is not None:
                 fn = lambda: self.clock.advance_us(int(t[1]))
-            elif len(t) == 2 and t[0] == "cb" and t[1] in ("0", "1", "2"):
+            elif len(t) == 2 and t[0] == "cb" and t[1] in ("0", "1", "2", "3"):
                 fn = lambda: mode.__setitem__("m", int(t[1]))
+            if fn is None and t and t[0] in ("tickb", "ticki", "renewi"):
+                fn = self._call_of(t, lambda: obj)
             if fn is None:
                 obs.append("bad-op")
                 continue
@@ -853,6 +877,12 @@ class C09(Prop):
                 op, t = "renew", ["renew", t[1], t[2]]
             elif op == "apor":
                 op, t = "apo", ["apo"]
+            elif op == "tickb":
+                op, t = "tick", ["tick", "1"]            # True is the integer 1
+            elif op == "ticki":
+                op, t = "tick", ["tick", t[1]]
+            elif op == "renewi":
+                op, t = "renew", ["renew", t[1], t[2]]
             # ---- the accessors tell the same story as get_phase() / get_status()
             if len(f) >= 14:
                 if (f[11] == "1") != (ph == "A") or f[11] not in ("0", "1"):
@@ -877,6 +907,8 @@ class C09(Prop):
                     r["unit_true"] = 0
                     if sub == "renewd" or (len(t) >= 5 and t[4] in ("1", "true", "True")):
                         r["errs"] = 0
+                if r.get("auto_renew"):
+                    r["errs"], r["unit_true"] = -10 ** 9, 0      # renewals inside the batch: unknown until the next reset
                 if not (0 <= ln <= maxo):
                     V("length_in_bounds", f"0 <= length <= {maxo}", f"{ln} after {line!r}", i)
                 if phase == "T" and ph != "T":
@@ -888,6 +920,7 @@ class C09(Prop):
                 r["phase"], r["length"] = ph, ln
                 continue
             if op == "cb":
+                r["auto_renew"] = t[1] == "3"
                 if ph != phase or ln != length:
                     V("legal_transitions", f"phase {phase}, length {length}: no method was called", f"{ph}, {ln} at {line!r}", i)
                 r["phase"], r["length"] = ph, ln
@@ -916,6 +949,11 @@ class C09(Prop):
                 continue
             if op == "adv":
                 now += int(t[1])
+            # an auto-renewing on_senescence (cb 3) was told about senescence during this call and renewed: the limits DID
+            # force senescence (announced A>S), the lifecycle may be ACTIVE again afterwards
+            auto = bool(r.get("auto_renew")) and any(x.startswith("sen:") for x in evs)
+            if auto and allow:
+                r["unit_true"] = 0
             # ---- transitions announced by the callbacks, and the resulting phase
             c = phase
             for ev in evs:
@@ -923,7 +961,7 @@ class C09(Prop):
                     continue
                 a, b = ev.split(">")
                 legal = ((a, b) in (("N", "A"), ("A", "S"))
-                         or ((a, b) == ("S", "A") and op == "renew")
+                         or ((a, b) == ("S", "A") and (op == "renew" or (r.get("auto_renew") and any(x.startswith("sen:") for x in evs))))
                          or (b == "P" and op == "apo" and a != "T")
                          or (b == "T" and op == "term"))
                 if not legal:
@@ -954,7 +992,7 @@ class C09(Prop):
                     V("dead_never_ticks", f"False and length {length}", f"{ret} and length {ln}", i)
                 if ret != "!" and ((ret == "1") != (ph == "A") or ret not in ("0", "1")):   # `!`: ended by the callback's exception
                     V("tick_true_iff_active_after", f"{'1' if ph == 'A' else '0'} (phase {ph})", ret, i)
-                if ph == "A" and ln <= 0 and ret != "!":
+                if ph == "A" and ln <= 0 and ret != "!" and not auto:
                     V("limits_force_senescence", "depleted lifecycle is not ACTIVE", f"length {ln} phase {ph}", i)
                 if phase not in ("P", "T"):
                     r["ops"] += 1
@@ -979,7 +1017,7 @@ class C09(Prop):
             # ---- limits force senescence (this lifecycle's own errors / operations since its own last reset)
             if op == "err":
                 r["errs"] += 1
-                if phase == "A" and ph == "A":
+                if phase == "A" and ph == "A" and not auto:
                     if r["errs"] >= thr:
                         V("limits_force_senescence",
                           f"SENESCENT once this lifecycle's errors ({r['errs']}) reach its threshold {thr}", ph, i)
@@ -987,9 +1025,11 @@ class C09(Prop):
                         V("limits_force_senescence",
                           f"SENESCENT once this lifecycle's error rate ({r['errs']}/{r['ops']} since its last reset) "
                           f"reaches {RATE}", ph, i)
+            if auto and allow:
+                r["errs"] = 0                 # the callback's renew(None, True) reset the error counter
             if ph == "A" and r["start_at"] is None:
                 r["start_at"] = now
-            if op == "timeouts" and phase == "A":
+            if op == "timeouts" and phase == "A" and not auto:
                 sa, lt = r["start_at"], r["last_touch"]
                 if life and sa is not None and now - sa >= life and ph == "A":
                     V("limits_force_senescence", f"SENESCENT: age {now - sa}us >= lifetime {life}us", ph, i)
@@ -1015,7 +1055,8 @@ class C09(Prop):
           sequential histories the property speaks about (both orders were run on the real code, same history before)."""
         k_ = t.index("|")
         ta, tb = t[2:k_], t[k_ + 1:]
-        canon = {"tickd": "tick", "tickk": "tick", "renewd": "renew", "renewk": "renew", "apor": "apo"}
+        canon = {"tickd": "tick", "tickk": "tick", "renewd": "renew", "renewk": "renew", "apor": "apo", "tickb": "tick",
+                 "ticki": "tick", "renewi": "renew"}
         opa, opb = canon.get(ta[0], ta[0]), canon.get(tb[0], tb[0])
         by = {"a": opa, "b": opb}
         rets = f[0].split("/")
@@ -1029,7 +1070,8 @@ class C09(Prop):
                 continue
             who, (a, b) = ev[0], ev[1:].split(">")
             op = by.get(who, "?")
-            legal = ((a, b) in (("N", "A"), ("A", "S")) or ((a, b) == ("S", "A") and op == "renew")
+            legal = ((a, b) in (("N", "A"), ("A", "S"))
+                     or ((a, b) == ("S", "A") and (op == "renew" or (r.get("auto_renew") and any("sen:" in x for x in evs))))
                      or (b == "P" and op == "apo" and a != "T") or (b == "T" and op == "term"))
             if not legal:
                 V("legal_transitions", "N>A, A>S, S>A by renew, *>P by apoptosis (not from T), *>T by terminate",
@@ -1057,7 +1099,10 @@ class C09(Prop):
                 # the end state was announced when the lifecycle had length elen and had performed eops operations
                 if eph == "T" and ph != "T":
                     V("terminated_absorbing", "T once TERMINATED was announced", f"{ph} after {line!r}", i)
-                if int(f[4]) != eops or ln < elen or (eph == "T" and ln != elen):
+                if eph == "T" and int(f[4]) == eops and ln > elen and "renew" in (opa, opb):
+                    V("renew_refused", f"renewal is refused once TERMINATED was announced (length {elen})",
+                      f"length {ln} after {line!r} (returns {f[0]})", i)
+                elif int(f[4]) != eops or ln < elen or (eph == "T" and ln != elen):
                     V("dead_never_ticks",
                       f"once {eph} was announced (length {elen}, {eops} operations) no tick is performed: length and operations stay",
                       f"length {ln}, {f[4]} operations after {line!r} (returns {f[0]})", i)
@@ -1077,6 +1122,8 @@ class C09(Prop):
         n_err = (opa == "err") + (opb == "err")
         renewed = [x for x, rr in ((ta, rets[0]), (tb, rets[-1])) if canon.get(x[0], x[0]) == "renew" and rr in ("1", "!")]
         n_tick = sum(1 for o_ in (opa, opb) if o_ == "tick")
+        if r.get("auto_renew") and any("sen:" in x for x in evs):
+            renewed = renewed or [["renew"]]
         if has_rst:
             r["unit_true"], r["start_at"], r["last_touch"], r["errs"], r["ops_lo"] = 0, None, None, -10 ** 9, 0
             r["ops"] = 10 ** 9 if n_tick else 0        # never under-estimated
@@ -1085,7 +1132,7 @@ class C09(Prop):
             if phase not in ("P", "T"):
                 r["ops"] += n_tick
             for x, rr in ((ta, rets[0]), (tb, rets[-1])):
-                if canon.get(x[0], x[0]) == "tick" and rr == "1" and (x == ["tickd"] or x[1:] == ["1"]):
+                if canon.get(x[0], x[0]) == "tick" and rr == "1" and (x in (["tickd"], ["tickb"]) or x[1:] == ["1"]):
                     r["unit_true"] += 1
             if renewed:
                 r["unit_true"] = 0
